@@ -131,5 +131,9 @@ def run(chk, prog):
     # unit must be the natural length for the effective f_s/alpha -- decided under C03 R1, R2, R6; re-evaluated here)
     from .common import reeval
     reeval(chk, prog, "C03", lambda i: i["rule"] in ("R1", "R2", "R6"), "R5", "R5-rotation-matching", 10)
+    # ---- RD: dimensional consistency of the quantities this property depends on (sa/dims.py) ----------------------------------------
+    from . import dimrules
+    nrd = dimrules.run(chk, prog, "RD")
+    chk.floor("RD-requirements", nrd or 0, 0)
     chk.notes.append("C04: decides that the Fokker-Planck stencils are consistent discretisations of e1*(f + p f' + f'') with matching damping and "
                      "diffusion coefficients for every FPType, and the wiring of e1. Does NOT decide convergence, monotonicity or the stable range.")
